@@ -643,7 +643,7 @@ func Standalone(vars map[string]*Term, asserts []*Term) string {
 	for _, n := range names {
 		fmt.Fprintf(&sb, "(declare-const %s %s)\n", n, sortStr(vars[n].W))
 	}
-	p := NewPrinter("t")
+	p := NewPrinter("t!")
 	for _, a := range asserts {
 		r := p.Ref(a)
 		sb.WriteString(p.Take())
